@@ -52,7 +52,10 @@ func init() {
 						}
 						s, _, err := user.GetSession(uint32(i+1), plainSeshConfig())
 						if err == ErrUserTerminated {
-							return // the connection met the record at its end and is refused (the client dials again)
+							// the connection met the record at its end and is refused (the client dials again); the
+							// dispatcher's error path tidies up on the record it holds
+							user.CloseSession(uint32(i+1), "")
+							return
 						}
 						if err != nil {
 							vrt.Fail("harness", "GetSession: %v", err)
